@@ -3,7 +3,7 @@ PROPERTY = "C16"
 LEVEL = "exploration"
 RULE = (
     "case = one real RL4COTrainer.fit (2-3 epochs x 3 batches, tiny networks) of REINFORCE with baseline no / mean / "
-    "exponential / rollout (warm-up over 1, 2 or 3 epochs) / critic, A2C, POMO (3 or 5 starts), SymNCO ((starts, augment) "
+    "exponential / rollout (warm-up over 1, 2 or 3 epochs) / critic / warm-up around a critic (trained two epochs past the warm-up), A2C, POMO (3 or 5 starts), SymNCO ((starts, augment) "
     "in (0,4), (4,4), (3,2), (5,2)) or PPO (mini-batches, 2 inner epochs, with/without advantage normalisation), with hooks "
     "on calculate_loss / shared_step / manual_backward. At EVERY training step the monitor recomputes the reference "
     "surrogate from the tapped rollout tensors using its own model of the baseline (own EMA state across steps, own alpha "
@@ -19,7 +19,7 @@ ASSUMPTIONS = [
     "SymNCO is run with its default beta = 1 (which of the two symmetric terms beta multiplies is then immaterial)",
     "PPO reference: clipped surrogate + vf_lambda * Huber(delta=1) - entropy_lambda * mean entropy, as documented in the class",
 ]
-REQUIRED_COUNTERS = ["c16_fits", "c16_steps_checked", "c16_gradients_compared", "c16_rollout_weights_compared", "c16_dot_grad_checked", "c16_nonzero_gradients", "c16_rollout_steps", "c16_warmup_alpha0_steps", "c16_shared_groups_checked", "c16_ppo_minibatches"]
+REQUIRED_COUNTERS = ["c16_fits", "c16_steps_checked", "c16_gradients_compared", "c16_rollout_weights_compared", "c16_dot_grad_checked", "c16_nonzero_gradients", "c16_rollout_steps", "c16_warmup_alpha0_steps", "c16_shared_groups_checked", "c16_ppo_minibatches", "c16_warmup_critic_steps", "c16_steps_after_warmup_end"]
 MIN_NONTRIVIAL = {"quick": 250, "thorough": 3000}
 WORKERS = {"quick": 14, "thorough": 16}
 BUDGET_S = {"quick": 600, "thorough": 3000}
@@ -40,6 +40,8 @@ def cases(tier, seed):
             for warm in (1, 2, 3):
                 out.append(dict(model="reinforce:rollout", env=env, s=rnd.randrange(10**6), epochs=4, warm=warm, bs=5))
             out.append(dict(model="a2c", env=env, s=rnd.randrange(10**6), epochs=2, bs=4))
+            for warm in (1, 2):
+                out.append(dict(model="reinforce_warmup_critic", env=env, s=rnd.randrange(10**6), epochs=warm + 3, warm=warm, bs=5, train=10))
             for S in (3, 5):
                 out.append(dict(model="pomo", env=env, s=rnd.randrange(10**6), epochs=2, S=S, bs=rnd.choice([3, 4])))
             for S, A in ((0, 4), (4, 4), (3, 2), (5, 2)):
